@@ -640,3 +640,60 @@ def desugar_list_comp_assigns(fn: FuncNode, only_tables: bool = False, inplace: 
     fn.body = walk_block(fn.body)
     ast.fix_missing_locations(fn)
     return fn
+
+
+def desugar_map(fn: FuncNode, inplace: bool = False) -> FuncNode:
+    """`map(f, xs)` -> `(f(_m) for _m in xs)` (one iterable; f any expression that is called)."""
+    fn = fn if inplace else copy.deepcopy(fn)
+    counter = [0]
+
+    class _M(ast.NodeTransformer):
+        def visit_Call(self, c: ast.Call) -> ast.AST:
+            self.generic_visit(c)
+            if isinstance(c.func, ast.Name) and c.func.id == 'map' and len(c.args) == 2 and not c.keywords and not any(isinstance(a, ast.Starred) for a in c.args):
+                counter[0] += 1
+                v = f'_m{counter[0]}'
+                elt = ast.Call(func=c.args[0], args=[ast.Name(id=v, ctx=ast.Load())], keywords=[])
+                gen = ast.GeneratorExp(elt=elt, generators=[ast.comprehension(target=ast.Name(id=v, ctx=ast.Store()), iter=c.args[1], ifs=[], is_async=0)])
+                return ast.copy_location(gen, c)
+            return c
+    fn = _M().visit(fn)
+    ast.fix_missing_locations(fn)
+    return fn
+
+
+def partial_bindings(mod: Module) -> T.Dict[str, ast.Call]:
+    """Module-level `name = functools.partial(f, ...)` bindings."""
+    out: T.Dict[str, ast.Call] = {}
+    imps = mod.imports()
+    for st in mod.tree.body:
+        if isinstance(st, ast.Assign) and len(st.targets) == 1 and isinstance(st.targets[0], ast.Name) and isinstance(st.value, ast.Call):
+            f = st.value.func
+            nm = f.id if isinstance(f, ast.Name) else (f.attr if isinstance(f, ast.Attribute) else '')
+            if isinstance(f, ast.Name) and imps.get(f.id, '') == 'functools.partial':
+                nm = 'partial'
+            if nm == 'partial' and st.value.args and not any(isinstance(a, ast.Starred) for a in st.value.args) and all(k.arg for k in st.value.keywords):
+                out[st.targets[0].id] = st.value
+    return out
+
+
+def expand_partials(fn: FuncNode, bindings: T.Dict[str, ast.Call], inplace: bool = False) -> FuncNode:
+    """`p(x)` with `p = partial(f, a, k=v)` -> `f(a, x, k=v)`."""
+    if not bindings:
+        return fn
+    fn = fn if inplace else copy.deepcopy(fn)
+    local = {n.id for n in ast.walk(fn) if isinstance(n, ast.Name) and isinstance(n.ctx, ast.Store)}
+
+    class _P(ast.NodeTransformer):
+        def visit_Call(self, c: ast.Call) -> ast.AST:
+            self.generic_visit(c)
+            if isinstance(c.func, ast.Name) and c.func.id in bindings and c.func.id not in local:
+                b = bindings[c.func.id]
+                kws = {k.arg for k in c.keywords}
+                new = ast.Call(func=copy.deepcopy(b.args[0]), args=[copy.deepcopy(a) for a in b.args[1:]] + list(c.args),
+                               keywords=[copy.deepcopy(k) for k in b.keywords if k.arg not in kws] + list(c.keywords))
+                return ast.copy_location(new, c)
+            return c
+    fn = _P().visit(fn)
+    ast.fix_missing_locations(fn)
+    return fn
